@@ -107,3 +107,53 @@ Theorem C04_col_widen_float32_in_float64_column :
          Ok (List.map (fun x : f32 => VFloat64 (f64_of_f32 x)) xs, rest).
 Proof. exact col_widen_float32_in_float64_column. Qed.
 
+
+(* ==== on the model of the REAL reader (Proofs/BinFinish.v): the order of the rows of the PRNT chunk is free — two row lists that
+   describe the same forest (same per-parent subsequences) decode to the same DOM *)
+From RbxVerif Require Import BinFinish.
+Open Scope N_scope.
+
+Theorem C04_prnt_then_finish :
+  forall (p : dec_params) (sstr : list bytes) (types : list (N * dtinfo)) (insts0 : list (Z * dinst))
+         (next : N) (pairs : list (Z * Z)) (F : list ztree),
+       let D := dinst_of insts0 in
+       (forall c par : Z, In (c, par) pairs -> par = (-1)%Z \/ zfind par insts0 <> None) ->
+       (forall k : Z,
+        In k (zfrefs F) -> exists i : dinst, zfind k insts0 = Some i /\ di_children i = [] /\ di_label i <> 0) ->
+       NoDup (List.map (lab D) (zfrefs F)) ->
+       rows_describe pairs F ->
+       exists insts' : list (Z * dinst),
+         prnt_links insts0 [] pairs = Ok (insts', List.map zroot F) /\
+         (exists out : cdom,
+            finish p
+              {|
+                ds_sstr := sstr;
+                ds_types := types;
+                ds_insts := insts';
+                ds_roots := List.map zroot F;
+                ds_next := next
+              |} = Ok out /\ reconstructs D p F out).
+Proof. exact prnt_then_finish. Qed.
+
+Theorem C04_prnt_row_order_free :
+  forall (p : dec_params) (sstr : list bytes) (types : list (N * dtinfo)) (insts0 : list (Z * dinst))
+         (next : N) (pairs1 pairs2 : list (Z * Z)) (F : list ztree),
+       let D := dinst_of insts0 in
+       (forall c par : Z, In (c, par) pairs1 -> par = (-1)%Z \/ zfind par insts0 <> None) ->
+       (forall c par : Z, In (c, par) pairs2 -> par = (-1)%Z \/ zfind par insts0 <> None) ->
+       (forall k : Z,
+        In k (zfrefs F) -> exists i : dinst, zfind k insts0 = Some i /\ di_children i = [] /\ di_label i <> 0) ->
+       NoDup (List.map (lab D) (zfrefs F)) ->
+       rows_describe pairs1 F ->
+       rows_describe pairs2 F ->
+       exists (insts1 insts2 : list (Z * dinst)) (roots : list Z) (out : cdom),
+         prnt_links insts0 [] pairs1 = Ok (insts1, roots) /\
+         prnt_links insts0 [] pairs2 = Ok (insts2, roots) /\
+         finish p
+           {| ds_sstr := sstr; ds_types := types; ds_insts := insts1; ds_roots := roots; ds_next := next |} =
+         Ok out /\
+         finish p
+           {| ds_sstr := sstr; ds_types := types; ds_insts := insts2; ds_roots := roots; ds_next := next |} =
+         Ok out.
+Proof. exact prnt_row_order_free. Qed.
+
